@@ -70,6 +70,20 @@ fn witness_state_apply_logical_op() {
             assert_eq!(got, expect, "returned unreferenced list is not exactly the hashes that lost their last reference after: {trace}");
         }
     }
+    // long, strictly ascending key lists with gaps (the shape `remove_range` produces), keys inside the span that are not listed
+    for gap in [2u8, 3, 5] {
+        let mut st = crate::index::IndexStateForWitness::<u8>::new();
+        let mut model: BTreeMap<u8, (BlobHash, u64)> = BTreeMap::new();
+        for k in 0..=200u8 { let hh = h(k % 7); st.apply_logical_op(&WalOp::Put { key: k, hash: hh, size: 10 + (k % 7) as u64 }).unwrap(); model.insert(k, (hh, 10 + (k % 7) as u64)); }
+        let keys: Vec<u8> = (10..=190u8).filter(|k| k % gap != 1).collect();
+        assert!(keys.len() >= 32);
+        st.apply_logical_op(&WalOp::Remove { keys: keys.clone() }).unwrap();
+        for k in &keys { model.remove(k); }
+        let got: Vec<u8> = st.key_to_hash.keys().copied().collect();
+        let want: Vec<u8> = model.keys().copied().collect();
+        assert_eq!(got, want, "Remove of {} ascending keys (every key with k % {gap} != 1 in 10..=190) must remove exactly the listed keys", keys.len());
+        check_state_wf(&st, &format!("after a long Remove list (gap {gap})"));
+    }
 }
 
 // ---------------- U-codec: decoders total, round-trip, acceptance equals the documented format ----------------
@@ -304,5 +318,76 @@ fn witness_intents_protocol() {
             assert_eq!(real, model, "round {round}: pending intents differ from the contract model after: {trace}");
         }
         drop(guards);
+    }
+}
+
+/// S-skel / U-intents oracle for the intent protocol (C04/C05/C07), driven from one thread through the real critical
+/// sections: an in-flight put (intent registered, blob renamed into cas/, commit not yet run) of content X under key k1,
+/// while another operation drops X's last index reference. Scenarios: remove / remove_range / overwrite of the referencing
+/// key, with the in-flight key equal to or different from it, with 1..3 further in-flight puts of other contents. After
+/// everything commits: every key's blob exists with the right bytes, and cas/ holds exactly the referenced contents.
+#[test]
+fn witness_inflight_put_protection() {
+    use crate::index::IntentMeta;
+    let cfg = crate::Config { scan_orphans_on_startup: false, ..Default::default() };
+    let contents: [&[u8]; 4] = [b"content X (shared)", b"content Y", b"content Z", b"content W"];
+    for scenario in 0..48u32 {
+        let op = scenario % 3;                 // 0 remove, 1 remove_range, 2 overwrite with other content
+        let same_key = (scenario / 3) % 2 == 1; // the in-flight put targets the key that is being removed/overwritten
+        let extra = (scenario / 6) % 4;        // number of additional in-flight puts (other contents, other keys)
+        let commit_order_rev = scenario / 24 == 1;
+        // two in-flight puts on the SAME key is the recorded known finding F1 (one hash per key in the intent map): the
+        // overwrite of k0 while put(k0, X) is in flight is therefore not part of this oracle
+        if op == 2 && same_key { continue; }
+        let dir = tempfile::tempdir().unwrap();
+        let cas: crate::Cas<String> = crate::Cas::open(dir.path(), cfg.clone()).unwrap();
+        let inner = cas.as_arc();
+        let put = |k: &str, v: &[u8]| { let mut t = cas.put(k.to_string()).unwrap(); t.write(v).unwrap(); t.finish().unwrap(); };
+        put("k0", contents[0]); put("k9", b"unrelated");
+        for e in 0..extra { put(&format!("e{e}"), contents[1 + e as usize % 3]); }
+        let what = format!("scenario {scenario}: op={} same_key={same_key} extra_inflight={extra} rev={commit_order_rev}", ["remove", "remove_range", "overwrite"][op as usize]);
+        // in-flight puts: register intent + rename staged blob into cas/
+        let mut guards = Vec::new();
+        let mut stage = |key: String, data: &[u8]| {
+            let h = crate::calculate_blob_hash(data);
+            let staged = dir.path().join("staging").join(format!("w-{}.staged", key));
+            std::fs::write(&staged, data).unwrap();
+            let g = inner.index.register_intent(key.clone(), IntentMeta { blob_hash: h, blob_size: data.len() as u64 }).unwrap();
+            inner.cas_manager.commit_blob(&staged, &h).unwrap();
+            (g, key, data.to_vec())
+        };
+        guards.push(stage(if same_key { "k0".to_string() } else { "k1".to_string() }, contents[0]));
+        for e in 0..extra { guards.push(stage(format!("f{e}"), contents[1 + e as usize % 3])); }
+        // the operation that drops the last index reference(s)
+        match op {
+            0 => { assert!(cas.remove(&"k0".to_string()).unwrap()); for e in 0..extra { cas.remove(&format!("e{e}")).unwrap(); } }
+            1 => { cas.remove_range("e0".to_string()..="k0".to_string()).unwrap(); }
+            _ => { put("k0", b"other content replacing X"); for e in 0..extra { put(&format!("e{e}"), b"other content replacing the extra"); } }
+        }
+        for (_, _, data) in guards.iter() {
+            let p = dir.path().join("cas").join(crate::calculate_blob_hash(data).relative_path());
+            assert!(p.exists(), "{what}: a blob that an in-flight put is about to reference was deleted");
+        }
+        if commit_order_rev { guards.reverse(); }
+        let mut model: BTreeMap<String, Vec<u8>> = cas.read_index_state().iter().map(|(k, _)| (k.clone(), Vec::new())).collect();
+        for (g, key, data) in guards {
+            let delete_fn = |hashes: &[BlobHash]| -> Result<(), crate::cas_manager::CasManagerError> { inner.cas_manager.delete_blobs(hashes) };
+            g.commit(&delete_fn).unwrap();
+            model.insert(key, data);
+        }
+        // every key readable with the right bytes; cas/ == referenced contents
+        let mut referenced = std::collections::BTreeSet::new();
+        let snapshot: Vec<(String, IndexStateItem)> = cas.read_index_state().iter().map(|(k, i)| (k.clone(), *i)).collect();
+        for (k, item) in snapshot {
+            let got = cas.get(&k).unwrap_or_else(|e| panic!("{what}: get({k}) failed after all puts returned: {e:?}")).unwrap();
+            assert_eq!(crate::calculate_blob_hash(&got), item.blob_hash, "{what}: key {k} wrong bytes");
+            if let Some(want) = model.get(&k) { if !want.is_empty() { assert_eq!(&got[..], &want[..], "{what}: key {k}"); } }
+            referenced.insert(item.blob_hash);
+        }
+        let mut on_disk = std::collections::BTreeSet::new();
+        fn walk(p: &std::path::Path, out: &mut std::collections::BTreeSet<BlobHash>) { if let Ok(rd) = std::fs::read_dir(p) { for e in rd.flatten() { let p = e.path(); if p.is_dir() { walk(&p, out); } else if let Ok(h) = BlobHash::from_relative_path(&p) { out.insert(h); } } } }
+        walk(&dir.path().join("cas"), &mut on_disk);
+        assert_eq!(on_disk, referenced, "{what}: cas/ must hold exactly the referenced contents once nothing is in flight");
+        assert!(inner.index.pending_intents.lock().is_empty(), "{what}: no registration may be left behind");
     }
 }
